@@ -42,8 +42,9 @@ VARIABLES kind,       \* [EP -> Kinds]            scenario constant
           up, lists,  \* the world
           status, known,
           req,        \* the request in flight: [route, model, cands, tried, phase, served] or NoReq
+          cnt,        \* [EP -> [ok, fail]]: attempts booked per endpoint (C19)
           act, scn
-vars == <<kind, up, lists, status, known, req, act, scn>>
+vars == <<kind, up, lists, status, known, req, cnt, act, scn>>
 
 NoReq == [route |-> "", model |-> "", cands |-> {}, tried |-> {}, phase |-> "none", served |-> "none"]
 \* "proxy" and the translated Anthropic route take any kind; a provider prefix only its own
@@ -54,41 +55,43 @@ Init == /\ kind \in [EP -> Kinds]
         /\ lists \in [EP -> SUBSET Models]
         \* the server has booted: every endpoint was probed and listed once
         /\ status = [e \in EP |-> "healthy"] /\ known = lists
-        /\ req = NoReq /\ act = "Init"
+        /\ req = NoReq /\ act = "Init" /\ cnt = [e \in EP |-> [ok |-> 0, fail |-> 0]]
         /\ scn = <<[op |-> "boot", kind |-> kind, lists |-> lists]>>
 
 Idle == req.phase = "none"
 
 (* ---- the world ---- *)
 SetUp(e, b) == /\ Idle /\ act' = "SetUp" /\ up[e] # b /\ up' = [up EXCEPT ![e] = b]   \* b \in Modes
-               /\ UNCHANGED <<kind, lists, status, known, req>>
+               /\ UNCHANGED <<kind, lists, status, known, req, cnt>>
 Relist(e, S) == /\ Idle /\ act' = "Relist" /\ lists[e] # S /\ lists' = [lists EXCEPT ![e] = S]
-                /\ UNCHANGED <<kind, up, status, known, req>>
+                /\ UNCHANGED <<kind, up, status, known, req, cnt>>
 
 (* ---- a health round ---- *)
 Health == /\ Idle /\ act' = "Health"
           /\ status' = [e \in EP |-> CASE up[e] = "up" -> "healthy" [] up[e] = "sick" -> "unhealthy" [] OTHER -> "offline"]
           /\ known' = [e \in EP |-> IF up[e] = "up" /\ status[e] # "healthy" THEN lists[e] ELSE known[e]]
-          /\ UNCHANGED <<kind, up, lists, req>>
+          /\ UNCHANGED <<kind, up, lists, req, cnt>>
 
 (* ---- a request ---- *)
 Cands(route, m) == {e \in EP : status[e] = "healthy" /\ Allowed(route, e) /\ m \in known[e]}
 Arrive(route, m) == /\ Idle /\ act' = "Arrive"
                     /\ req' = [route |-> route, model |-> m, cands |-> Cands(route, m), tried |-> {},
                                phase |-> "choosing", served |-> "none"]
-                    /\ UNCHANGED <<kind, up, lists, status, known>>
+                    /\ UNCHANGED <<kind, up, lists, status, known, cnt>>
 \* one attempt on a candidate not tried yet
 Attempt(e) == /\ req.phase = "choosing" /\ e \in req.cands \ req.tried /\ act' = "Attempt"
               /\ IF up[e] # "down"
-                 THEN req' = [req EXCEPT !.tried = @ \cup {e}, !.phase = "served", !.served = e] /\ UNCHANGED status
+                 THEN /\ req' = [req EXCEPT !.tried = @ \cup {e}, !.phase = "served", !.served = e] /\ UNCHANGED status
+                      /\ cnt' = [cnt EXCEPT ![e].ok = @ + 1]                 \* every attempt is booked exactly once
                  ELSE /\ req' = [req EXCEPT !.tried = @ \cup {e}]
                       /\ status' = [status EXCEPT ![e] = "offline"]          \* out of rotation until readmitted
+                      /\ cnt' = [cnt EXCEPT ![e].fail = @ + 1]
               /\ UNCHANGED <<kind, up, lists, known>>
 \* the client has its answer
 Answer == /\ req.phase \in {"choosing", "served"} /\ act' = "Answer"
           /\ (req.phase = "choosing" => req.cands \subseteq req.tried)       \* an error only when nothing is left
           /\ req' = NoReq
-          /\ UNCHANGED <<kind, up, lists, status, known>>
+          /\ UNCHANGED <<kind, up, lists, status, known, cnt>>
 
 Log(t) == scn' = Append(scn, t)
 Modes == {"up", "sick", "down"}
@@ -114,7 +117,7 @@ RefusedIsOut == \A e \in req.tried : (e # req.served) => status[e] = "offline"
 \* is never a reason to contact anybody
 NeverListedNeverServed == (req.served # "none") => req.model \in Models
 
-View == <<kind, up, lists, status, known, req>>
+View == <<kind, up, lists, status, known, req>>   \* (cnt only grows: left out of the bounded model's view)
 GenConstraint == Len(scn) <= MaxLen
 SimExport == (Len(scn) = MaxLen /\ Idle) => PrintT(<<"SCN", ToJson(scn)>>)
 =============================================================================
